@@ -20,6 +20,9 @@ if ! out=$(go build -tags verif "${flags[@]}" -o "$bin" ./cmd/vcheck 2>&1); then
   echo "INCONCLUSIVE property=$prop build of the checker against /repo failed"
   exit 2
 fi
+if [ "$prop" = C16 ] && [ ! -x bin/legacygen ]; then
+  (cd legacygen && go build -o ../bin/legacygen .) || { echo "INCONCLUSIVE property=C16 cannot build the legacy generator"; exit 2; }
+fi
 if [ "$tier" = "--replay" ]; then
   exec "$bin" replay "${3:?replay file}"
 fi
